@@ -97,3 +97,10 @@ func init() {
 	prop("C05", "C01-R1")
 	prop("C11", "C14-R1")
 }
+
+func init() {
+	prop("C16", "C16-R4")
+	prop("C05", "C16-R4")
+	prop("C15", "C15-R4")
+	prop("C03", "C15-R4")
+}
